@@ -311,6 +311,43 @@ func c10Cross(base map[string]any) []c10Case {
 			}
 		}
 	}
+	// the referenced subtree itself holds a reference whose path exists in both documents with
+	// different content: inlined into the host it resolves in the HOST document, and the target
+	// document must still evaluate to its own value afterwards (host before and after the target)
+	for _, inner := range []any{
+		map[string]any{"$merge": "p", "x": 1},
+		map[string]any{"$merge": "p"},
+		map[string]any{"deep": map[string]any{"$merge": "p", "x": 1}},
+		[]any{map[string]any{"$merge": "q"}, 0},
+		map[string]any{"k": "$merge:p.v"},
+	} {
+		target := map[string]any{"id": 1, "a": inner, "p": map[string]any{"v": "target"}, "q": []any{"tq"}}
+		for _, dir := range []string{"$replace", "$merge"} {
+			for fi, ref := range []any{
+				map[string]any{"$match": map[string]any{"id": 1}, "$path": "a"},
+				[]any{map[string]any{"id": 1}, "a"},
+			} {
+				if dir == "$merge" {
+					if _, isList := inner.([]any); isList {
+						continue
+					}
+				}
+				host := map[string]any{"id": 9, "p": map[string]any{"v": "host"}, "q": []any{"hq"}, "h": map[string]any{dir: ref}}
+				inl := map[string]any{"id": 9, "p": map[string]any{"v": "host"}, "q": []any{"hq"}, "h": core.Clone(inner)}
+				if dir == "$merge" {
+					// {$merge: ref} with no local content = the referenced value layered onto {}
+					w, err := c10Layer(map[string]any{}, inner)
+					if err != nil {
+						continue
+					}
+					inl["h"] = w
+				}
+				kind := fmt.Sprintf("cross nested-reference %s form%d", dir, fi)
+				out = append(out, c10Case{Kind: kind + " host-first", Docs: []any{host, target}, Inlined: []any{inl, target}})
+				out = append(out, c10Case{Kind: kind + " host-last", Docs: []any{target, host}, Inlined: []any{target, inl}})
+			}
+		}
+	}
 	// whole-document reference and a self-matching host
 	out = append(out, c10Case{Kind: "cross whole-document", Docs: []any{mk(1, base), map[string]any{"id": 9, "h": map[string]any{"$replace": map[string]any{"$match": map[string]any{"id": 1}}}}},
 		Inlined: []any{mk(1, base), map[string]any{"id": 9, "h": mk(1, base)}}})
